@@ -182,6 +182,7 @@ class Decider:
         """is (assumptions => goal) valid?  -> ('unsat'|'sat'|'unknown', model|None)"""
         neg = z3.Not(goal)
         g = z3.simplify(neg)
+        s.last_key = None
         if z3.is_false(g):
             s.queries += 1; s.by_simplifier += 1
             return 'unsat', None
@@ -192,8 +193,10 @@ class Decider:
             if key in s.cache:
                 s.dedup += 1
                 r = s.cache[key]
+                s.last_key = key
                 return ('sat-dup', r[1]) if r[0] == 'sat' else r
         s.queries += 1
+        s.last_key = key
         t0 = time.time()
         sol = z3.Solver()
         sol.set('timeout', int(s.timeout_s * 1000))
@@ -224,21 +227,37 @@ class Decider:
 
 
 def cvc5_check(sol, timeout_s):
+    """cvc5 CLI on the SMT-LIB export; pure bit-vector queries run twice in parallel (bit-blasting and --solve-bv-as-int=sum),
+    first definite answer wins; any error output makes the answer 'error' (never a verdict)"""
     txt = '(set-logic ALL)\n' + sol.sexpr() + '\n(check-sat)\n'
-    if 'fp.to_ieee_bv' in txt or 'to_fp' in txt or 'Float' in txt:
-        flags = []
-    else:
-        flags = ['--solve-bv-as-int=sum']
+    variants = [[]]
+    if not ('fp.' in txt or 'to_fp' in txt or 'Float' in txt):
+        variants.append(['--solve-bv-as-int=sum'])
     with tempfile.NamedTemporaryFile('w', suffix='.smt2', delete=False) as fh:
         fh.write(txt); path = fh.name
+    procs = []
     try:
-        p = subprocess.run(['cvc5', '--tlimit=%d' % int(timeout_s * 1000)] + flags + [path], capture_output=True, text=True, timeout=timeout_s + 10)
-        out = p.stdout.strip().split('\n')[0] if p.stdout.strip() else ''
-        if '(error' in p.stdout or 'error' in p.stderr.lower(): return 'error'
-        return out if out in ('sat', 'unsat') else 'unknown'
-    except subprocess.TimeoutExpired:
-        return 'unknown'
+        for fl in variants:
+            procs.append(subprocess.Popen(['cvc5', '--tlimit=%d' % int(timeout_s * 1000)] + fl + [path], stdout=subprocess.PIPE, stderr=subprocess.PIPE, text=True))
+        t_end = time.time() + timeout_s + 10
+        pending = list(procs); answer = 'unknown'
+        while pending and time.time() < t_end:
+            for p in list(pending):
+                if p.poll() is None: continue
+                pending.remove(p)
+                out, err = p.communicate()
+                first = out.strip().split('\n')[0] if out.strip() else ''
+                if '(error' in out: return 'error'
+                if first in ('sat', 'unsat'):
+                    answer = first; pending = []; break
+            time.sleep(0.02)
+        return answer
     finally:
+        for p in procs:
+            if p.poll() is None:
+                p.kill()
+            try: p.communicate(timeout=2)
+            except Exception: pass
         os.unlink(path)
 
 
